@@ -28,6 +28,10 @@ func main() {
 		workerMain(os.Args[2:])
 		return
 	}
+	if len(os.Args) >= 5 && os.Args[1] == "c16stress" {
+		stressMain(os.Args[2:])
+		return
+	}
 	if len(os.Args) < 3 {
 		ids := make([]string, 0, len(checks))
 		for id := range checks {
